@@ -9,7 +9,7 @@
     identifiers, first layer in [glyphs] and nobody else, distinct layer directories and glif file
     names.  [font_equiv] is the equality of the property: everything but the creator, numbers /
     colours under the part equalities, feature text up to line endings, stores byte-identical. *)
-Require Import Norad.Model.GlifSpec Norad.Model.GlifEncode Norad.Proofs.GlifEncodeP Norad.Proofs.GlifRoundtripP.
+Require Import Norad.Model.GlifSpec Norad.Model.GlifEncode Norad.Proofs.GlifEncodeP Norad.Proofs.GlifRoundtripP Norad.Proofs.GlifFullP.
 Require Import Norad.Model.Base Norad.Model.FontRT Norad.Model.FontToy Norad.Model.FontNum Norad.Model.FontRealInfo Norad.Model.FontReal
                Norad.Proofs.FontRealInfoP
                Norad.Proofs.FontRTP Norad.Proofs.FontToyP Norad.Proofs.FontNumP Norad.Proofs.FontRealP.
@@ -123,7 +123,7 @@ Proof. eexists. split; vm_compute; reflexivity. Qed.
     - a record [K : codecs] of the seven file codecs of the plist layer (metainfo, lib, groups,
       kerning, layercontents, contents, layerinfo), the colour type and [str::to_lowercase].
     PROVED for this instance (Proofs/FontRealP.v, [real_sig_ok]): the laws of [sig_ok] about the
-    glif codec and glyph names (from C02_roundtrip_partial, C02_options_irrelevant), about the
+    glif codec and glyph names (from C02_roundtrip, libs included), about the
     font-info codec, its default and validator (from C13_entry_points_agree), about the groups
     validator, emptiness tests and defaults, and the whole dictionary algebra.
 
@@ -136,16 +136,19 @@ Proof. eexists. split; vm_compute; reflexivity. Qed.
       (Schema-style decode_encode); the kerning file additionally needs Model/Num.v (the
       integer-or-float writer is exact since cf70ca2).  Satisfiable: [C01_real_codecs_satisfiable].
     - [L1_glif]: f64 Display / from_str invert on finite numbers, the {:.3} rendering of a colour
-      channel holds no comma and reads back inside 0..1, {:04X} reads back (the L1 hypotheses of
-      C02_roundtrip_partial; validated on every value by the C02 run).
-    - in [font_valid]: every glyph satisfies [wf_glyph] — the glyph rules of C12, finite numbers, a
-      surviving note, canonical numbers / colours, and NO LIBS (the composite glif round trip of
-      C02 is proved for lib-free glyphs only; glyphs with libs stay covered by the parametric
-      theorem and the run) — and the font info satisfies [wf_sinfo] (FontInfo::validate accepts,
-      integer fields within their machine types).
-    On that domain glyphs, font info and groups come back exactly. *)
+      channel holds no comma and reads back inside 0..1, {:04X} reads back, the integer text of the
+      plist writer reads back (the four L1 hypotheses of C02_roundtrip; validated on every value
+      by the C02 run).
+    - in [font_valid]: every glyph satisfies [wf_glyph] — the glyph rules of C12, finite numbers,
+      glyph lib and object libs the plist writer and reader agree on ([libs_valid]), outside F3 for
+      every write option (a surviving note, no line break in lib text: the known classes
+      note_blanks / glyph_lib_linebreak), and canonical form (no negative zero where the writer
+      tests [== 0.0], colours that are fixed points of the three-decimal rendering, lib keys sorted
+      recursively — the form every written-and-re-read glyph has) — and the font info satisfies
+      [wf_sinfo] (FontInfo::validate accepts, integer fields within their machine types).
+    On that domain glyphs (libs included), font info and groups come back exactly. *)
 Theorem C01_roundtrip_real : forall pf ff ff3 fi fh (K : codecs),
-  L1_glif pf ff ff3 fh -> codecs_ok K ->
+  L1_glif pf ff ff3 fi fh -> codecs_ok K ->
   forall o (f : font (real_sig pf ff ff3 fi fh K)),
   font_valid (real_sig pf ff ff3 fi fh K) f ->
   exists t, save (real_sig pf ff ff3 fi fh K) o f = Ok t /\
